@@ -53,6 +53,7 @@ def rule_even(ctx):
 
 
 def run(ctx):
+    ctx.do(F.rule_bfs5)
     ctx.do(F.rule_md1)
     ctx.do(F.rule_n2)
     ctx.do(F.rule_hid1)
